@@ -23,7 +23,7 @@ VARIABLES now, lo, hi, charged, admitted, fwlast, inflight, deadline, cqlast,
 TxIds == {TraceLog[i].id : i \in {j \in 2..TraceLen : TraceLog[j].ev = "tx"}}
 SqIds == {TraceLog[i].sq : i \in {j \in 2..TraceLen : TraceLog[j].ev = "tx"}}
 
-G == INSTANCE GatewayP WITH TxIds <- TxIds, SqIds <- SqIds, StRange <- C0.StRange, RetryA <- C0.RetryA, RCache <- C0.RCache, WCache <- C0.WCache, CacheTtl <- C0.CacheTtl, Cfg <- C0.cfg, QIds <- DOMAIN C0.QKind, QKind <- C0.QKind, QMax <- C0.QMax, QW <- C0.QW,
+G == INSTANCE GatewayP WITH TxIds <- TxIds, SqIds <- SqIds, StRange <- C0.StRange, RetryA <- C0.RetryA, RCache <- C0.RCache, WCache <- C0.WCache, CacheTtl <- C0.CacheTtl, Cfg <- C0.cfg, QIds <- DOMAIN C0.QKind, QKind <- C0.QKind, QMax <- C0.QMax, QW <- C0.QW, QExp <- C0.QExp, QGc <- C0.QGc,
                             LimQ <- C0.LimQ, GenStatus <- C0.GenStatus, SetH <- C0.SetH
 
 gvars == <<now, lo, hi, charged, admitted, fwlast, inflight, deadline, cqlast, rmode, rA, rAF, rranges, rB, rcnt, rlast, cnow, cands, held, open, cum, clast, l, cur, pos, seen>>
@@ -55,7 +55,15 @@ TReset ==
     /\ G!RetryReset /\ G!CacheReset
     /\ UNCHANGED <<cur, pos, seen>>
 
-TAdv == Consume("adv") /\ now' = now + Ev.d /\ G!RetryAdv /\ G!CacheAdv(Ev.d) /\ UNCHANGED <<qstate, cur, pos, seen>>
+\* time passes (one event per tick); no held concurrency slot may outlive its expiry by more than the collection period (C02)
+TAdv == /\ Consume("adv") /\ G!CQ!Advance(Ev.d) /\ G!RetryAdv /\ G!CacheAdv(Ev.d)
+        /\ UNCHANGED <<lo, hi, charged, admitted, fwlast, cur, pos, seen>>
+
+\* reclaiming an expired slot is not observable: TLC places it wherever C02 allows - in front of a request or of a clock tick, the only
+\* events whose judgement depends on it (a reclaim commutes with everything else)
+TExpire == /\ Idle /\ l < TraceLen /\ (Ev.ev = "adv" \/ (Ev.ev = "tx" /\ Ev.dir = "req"))
+           /\ \E q \in G!Conc : \E t \in inflight[q] : G!CQ!Expire(t, q)
+           /\ UNCHANGED <<lo, hi, charged, admitted, fwlast, rvars, cvars, l, cur, pos, seen>>
 
 \* the walk of one user flow within a request transaction (C04).  The flow that answered the request is judged with
 \* the resume rule; another selected flow runs its request side completely or - when an earlier flow answered - not at
@@ -206,12 +214,12 @@ TRes ==
 
 TErr == Consume("err") /\ G!CQ!ProxyError(Ev.id) /\ UNCHANGED <<lo, hi, charged, admitted, fwlast, cur, pos, seen, rvars, cvars>>
 
-TNext == TReset \/ TAdv \/ TBeginReq \/ TSkip \/ TQuota \/ TFinish \/ TRes \/ TErr
+TNext == TReset \/ TAdv \/ TExpire \/ TBeginReq \/ TSkip \/ TQuota \/ TFinish \/ TRes \/ TErr
 
 TraceSpec == TInit /\ [][TNext]_gvars
 
 FwBound == G!FW!Bound
-CqBound == G!CQ!Bounded
+CqBound == G!CQ!Bounded /\ G!CQ!ExpiryBound
 RetryBound == G!RT!Bounded
 CacheBound == G!XC!SizeBound
 HWM == Mark(l)
